@@ -119,7 +119,7 @@ def main(argv=None):
     known = load_known()
     kf = [f for f in known.get("findings", []) if f["property"] == pid]
     ctx = mp.get_context("spawn")
-    nproc = min(16, max(1, len(scen) + 1))
+    nproc = min(int(os.environ.get("PYVC_NPROC", "16")), max(1, len(scen) + 1))
     lines = []
     violations = []
     with ctx.Pool(nproc) as pool:
